@@ -24,7 +24,7 @@ def gen_values(rng, n, kind):
 def gen_config(rng, max_vars, rep_choices, allow_none_name=False):
     for _ in range(100):
         nun = rng.choice([0, 1, 1, 2, 2, 3])
-        names = rng.sample(["snr", "m", "nr", "alg", "beta"], nun)
+        names = rng.sample(["snr", "m", "nr", "alg", "beta", "Zeta", "a", "SNR2", "p", "x_1"], nun)
         unpacked = {}
         prod = 1
         for nm in names:
@@ -48,7 +48,12 @@ def gen_config(rng, max_vars, rep_choices, allow_none_name=False):
     name = rng.choice(tmpl)
     if allow_none_name and rng.random() < 0.4:
         name = None
+    order = list(fixed) + list(unpacked)
+    rng.shuffle(order)
+    unpack_order = list(unpacked)
+    rng.shuffle(unpack_order)
     return {
+        "order": order, "unpack_order": unpack_order,
         "unpacked": unpacked, "fixed": fixed, "rep_max": rng.choice(rep_choices),
         "results_name": name, "ext": rng.choice(["", "", ".json", ".pickle"]),
         "partial_folder": rng.choice(["partial_results", "partial_results", "partial_results", "pr", None]),
@@ -204,6 +209,10 @@ def gen_plan_c07(rng, tier, idx, opts):
         else:
             inc["fault"] = gen_fault(rng, kinds, nl)
         plan["incarnations"].append(inc)
+        if k > 0:
+            prevf = plan["incarnations"][k - 1].get("fault") or {}
+            if prevf.get("action") in ("kill_soft", "oserror") and rng.random() < 0.35:
+                inc["same_runner"] = True       # exception caught by the caller, simulate() called again in the same process
     if stale:
         c2, kind = mutate_config(rng, cfg)
         plan["config2"] = c2
@@ -215,7 +224,12 @@ def gen_plan_c07(rng, tier, idx, opts):
         fin_call = {"kind": "all"}
         if use_index and rng.random() < 0.3:
             fin_call = {"kind": "index", "i": rng.randrange(nv)}
-        plan["incarnations"].append({"params": "P1", "call": fin_call, "fault": None})
+        fin = {"params": "P1", "call": fin_call, "fault": None}
+        if plan["incarnations"]:
+            prevf = plan["incarnations"][-1].get("fault") or {}
+            if prevf.get("action") in ("kill_soft", "oserror") and rng.random() < 0.35:
+                fin["same_runner"] = True
+        plan["incarnations"].append(fin)
     return plan
 
 
